@@ -196,3 +196,7 @@ package error
 //@   requires err != nil
 //@   modifies nothing
 //@   ensures result != nil && fresh(result)
+
+// the predeclared error interface: Error() has no side effect
+//@ iface error.Error(self) (s)
+//@   modifies nothing
